@@ -77,6 +77,7 @@ pub struct Sys {
     s_sent: usize,
     received: Vec<Got>,
     tags_ok: bool,
+    accepted_app: Option<String>,
     finished: usize,
     connected: bool,
     accepted: bool,
@@ -105,7 +106,7 @@ impl Sys {
         let (c, co) = ClientH::new(ccfg, 1000).map_err(|e| format!("ClientSession::new: {}", e))?;
         let mut sys = Sys {
             sc: Arc::new(sc), c, s, to_server: VecDeque::new(), to_client: VecDeque::new(), s_events: VecDeque::new(), c_events: VecDeque::new(),
-            c_phase: 0, c_next: 0, round: 0, s_play_stream: None, s_sent: 0, received: Vec::new(), tags_ok: true, finished: 0, connected: false, accepted: false,
+            c_phase: 0, c_next: 0, round: 0, s_play_stream: None, s_sent: 0, received: Vec::new(), tags_ok: true, accepted_app: None, finished: 0, connected: false, accepted: false,
             errors: Vec::new(), trace: Vec::new(), steps: 0,
         };
         for (b, _) in so.packets {
@@ -205,9 +206,13 @@ impl Sys {
         }
     }
 
-    /// The name events must carry: the requested one, minus one trailing slash (the library's documented
-    /// normalisation, pinned by its own test `connect_request_strips_trailing_slash`).
+    /// The name events must carry: the one the connection request was surfaced (and accepted) under.  That name must
+    /// be the requested one, as it is or with trailing slashes removed (the library strips one today, pinned by its
+    /// own test `connect_request_strips_trailing_slash`; keeping it, or stripping all, satisfies the statement too).
     fn expected_app(&self) -> String {
+        if let Some(a) = &self.accepted_app {
+            return a.clone();
+        }
         let mut a = self.sc.app.clone();
         if a.ends_with('/') {
             a.pop();
@@ -215,11 +220,19 @@ impl Sys {
         a
     }
 
+    fn acceptable_app(&self, got: &str) -> bool {
+        let raw = self.sc.app.as_str();
+        got == raw || (raw.ends_with('/') && (got == &raw[..raw.len() - 1] || got == raw.trim_end_matches('/')))
+    }
+
     fn server_app(&mut self) {
         if let Some(e) = self.s_events.pop_front() {
             self.trace.push(format!("server app handles {}", ev_name_s(&e)));
             match e {
                 ServerSessionEvent::ConnectionRequested { request_id, app_name } => {
+                    if self.acceptable_app(&app_name) {
+                        self.accepted_app = Some(app_name.clone());
+                    }
                     if app_name != self.expected_app() {
                         self.tags_ok = false;
                         self.errors.push(format!("connection requested for app {:?}, client asked for {:?}", app_name, self.sc.app));
